@@ -7,7 +7,7 @@ Import ListNotations.
 Local Open Scope string_scope.
 Local Open Scope Z_scope.
 
-Definition impl_broken : impl := mkImpl false false false false true.
+Definition impl_broken : impl := mkImpl false false false false true false.
 Notation TD := (to_dict Z 0 0 1 (-1) cat impl_broken).
 Notation FD := (from_dict Z 0 1 0 idl impl_broken).
 
@@ -17,9 +17,9 @@ Definition with_surfaces (l : lens Z) ss :=
 (** D26: a Fresnel coating stores its two material objects in the dictionary: json.dump raises *)
 Definition fresnel_lens : lens Z :=
   with_surfaces ex_lens
-    [SObject Z (GPlane Z (cs0 (-100))) air;
+    [SObject Z (GPlane Z (cs0 (-100)) None) air;
      SStandard Z (GStd Z (cs0 0) 50 0) air (MIdeal Z 2 0) true None (Some (CFresnel Z air (MIdeal Z 2 0))) None false;
-     SStandard Z (GPlane Z (cs0 90)) (MIdeal Z 2 0) (MIdeal Z 2 0) false None None None false].
+     SStandard Z (GPlane Z (cs0 90) None) (MIdeal Z 2 0) (MIdeal Z 2 0) false None None None false].
 
 Theorem fresnel_coating_json_refuted :
   exists l, wf Z idl l /\ loadable impl_broken l = true /\ json_file_roundtrip (TD l) = None.
@@ -40,7 +40,7 @@ Proof. exists pol_lens. split; [exact ex_wf|]. split; reflexivity. Qed.
 
 (** a lens whose last surface is an ImageSurface instance saves but cannot be loaded (TypeError) *)
 Definition image_lens : lens Z :=
-  with_surfaces ex_lens [SObject Z (GPlane Z (cs0 (-100))) air; SImage Z (GPlane Z (cs0 0)) air None].
+  with_surfaces ex_lens [SObject Z (GPlane Z (cs0 (-100)) None) air; SImage Z (GPlane Z (cs0 0) None) air None].
 
 Theorem image_surface_reload_refuted :
   exists l, wf Z idl l /\ json_safe (TD l) = true /\ forall ap, FD ap (TD l) = None.
@@ -65,4 +65,19 @@ Theorem stale_pickup_reload_refuted :
 Proof.
   exists stale_lens, apply_radius_pickup, (apply_radius_pickup stale_lens).
   split; [exact ex_wf|]. split; [vm_compute; reflexivity|]. vm_compute. intros H. discriminate H.
+Qed.
+
+(** a conic constant kept on a flat surface (set_conic on a plane / set_radius(inf) on a conic) is not written:
+    the lens comes back without it *)
+Definition plane_conic_lens : lens Z :=
+  with_surfaces ex_lens
+    [SObject Z (GPlane Z (cs0 (-100)) None) air;
+     SStandard Z (GPlane Z (cs0 0) (Some (-1))) air air true None None None false;
+     SStandard Z (GPlane Z (cs0 90) None) air air false None None None false].
+
+Theorem plane_conic_reload_refuted :
+  exists l l', wf Z idl l /\ json_safe (TD l) = true /\ FD (fun l => l) (TD l) = Some l' /\ l' <> l.
+Proof.
+  exists plane_conic_lens. eexists. split; [exact ex_wf|]. split; [reflexivity|]. split; [vm_compute; reflexivity|].
+  intros H. discriminate H.
 Qed.
